@@ -503,6 +503,11 @@ def _module(file: str) -> ast.Module:
 def translate(k: Kernel) -> str:
     mod = _module(k.file)
     func = _find_func(mod, k.func)
+    if k.sel[0] == "custom":
+        # a structural (shape) kernel: sel[1](function_ast) returns (gallina_body, python_source) or raises Unsupported
+        body, src = k.sel[1](func)
+        binders = " ".join(f"({n} : {ty})" for n, ty in k.params)
+        return f"(* {k.file} :: {k.func} :: shape kernel :  {src} *)\nDefinition {k.name} {binders} : {k.ty} :=\n  {body}.\n"
     expr = _select(func, k.sel)
     tr = Translator(mod, func, dict(k.params), k.inline_locals, dict(k.calls))
     body = tr.any(expr, k.ty)
@@ -514,6 +519,8 @@ def translate(k: Kernel) -> str:
 def python_source(k: Kernel) -> str:
     mod = _module(k.file)
     func = _find_func(mod, k.func)
+    if k.sel[0] == "custom":
+        return k.sel[1](func)[1]
     return ast.unparse(_select(func, k.sel))
 
 
